@@ -413,7 +413,7 @@ class Body:
         if k == 'rawptr':
             return ('rawptr', self.expr_place(r['p'], depth))
         if k == 'cast':
-            return ('cast', r['ck'], canon(r['ty'], self.crate), self.expr_op(r['o'], depth))
+            return ('cast', r['ck'], canon(r['ty'], self.crate), self.expr_op(r['o'], depth), canon(r.get('from'), self.crate))
         if k == 'bin':
             return ('bin', r['op'], self.expr_op(r['a'], depth), self.expr_op(r['b'], depth))
         if k == 'un':
